@@ -280,6 +280,19 @@ theorem ind_iff_period (c : Cfg) (start : Nat) (t0 : Int) (ds : List Nat) (k : N
   have hpay : ∀ fn, payload fn = indication fn := clck_consts.2.2.2.2
   simp only [hpay]
 
+/-- Indications follow the frame NUMBER, not the tick count: whatever the indication period (also one that
+does not divide the hyperframe) and the start frame, the tick on which the frame number wraps to 0 sends
+`IND CLOCK 0` to every link, and after the wrap the indications are again exactly at the multiples of the
+period (`ind_iff_period` with `fn_sequence`). -/
+theorem ind_at_wrap (c : Cfg) (start : Nat) (t0 : Int) (ds : List Nat) (k : Nat) (a : Tick)
+    (hp : 0 < c.period) (hs : start < hyperframe) (ha : (worker c start t0 ds).1[k]? = some a)
+    (hk : (start + k) % hyperframe = 0) :
+    a.fn = 0 ∧ a.sends = c.links.map (fun l => (l, indication 0)) := by
+  have hfn : a.fn = 0 := by rw [fn_sequence c start t0 ds hp hs k a ha, hk]
+  refine ⟨hfn, ?_⟩
+  rw [ind_iff_period c start t0 ds k a hp ha, hfn, Nat.zero_mod]
+  simp only [if_true]
+
 /-- **handler.**  The handler is called exactly once in every tick — whether or not an
 indication is due — with the frame number of the tick, after the indications went out. -/
 theorem handler_once_per_tick (c : Cfg) (start : Nat) (t0 : Int) (ds : List Nat) (k : Nat) (a : Tick)
